@@ -87,7 +87,7 @@ UNIT = dict(
                        (r'chainLengths\.push_back\(\(symbol_t\)chainLength\);', 'lenvec_push(chainLengths_p, (symbol_t)chainLength);', 1),
                        (r'vector<symbol_t>& front = chainIds\.front\(\);', 'const vsym* front = &chainIds_p->e[0];', 1),
                        (r'chainId\[pos\] != front\[pos\]', 'vsym_get(&chainId, pos) != vsym_get(front, pos)', 1),
-                       (r'chainId\.size\(\)', 'chainId.n', 2),
+                       (r'chainId\.size\(\)', 'chainId.n', (1, 6)),
                        (r'id = chainIds\.front\(\);', '*id_p = chainIds_p->e[0];', 1),
                        (r'chainIds\.size\(\) > 1', 'chainIds_p->n > 1', 1),
                        (r'id\.size\(\) > chainPrefixLength', 'id_p->n > chainPrefixLength', 1),
